@@ -4,9 +4,11 @@ Units (real code vs Model/Policy.v):
   filter_on_attributes / filter_attribute_value_assertions : module functions on generated dicts
   entity_categories  : Policy.get_entity_categories over every regenerated module x category sets x required sets
   policy_filter / restrict : ONE long-lived Policy object per generated world, sequences of calls for different SPs
-  setup_assertion    : Server.setup_assertion(best_effort=False)  (error response branch)
+  setup_assertion    : Server.setup_assertion with both values of best_effort (error response / best-effort assertion)
   e2e_authn / e2e_attribute : Server.create_authn_response / create_attribute_response on ONE long-lived Server per
-                       world, sequences of requests for different SPs, released attribute set read from the XML
+                       world, sequences of requests for different SPs (some with the per-request release_policy argument),
+                       released attribute set read from the XML; fixed worlds for every category row, every pattern x value,
+                       and the missing-requirement (best-effort) path under every policy shape
 Oracle (no model): released <= what the configured policy permits for THIS SP, restated declaratively with a
 hand-written documented entity-category table.
 """
@@ -32,7 +34,7 @@ CLAIM = {
 }
 TRUSTED = [
     "Gen/EntityCat.v is regenerated from every module of saml2_tophat/entity_category by reflection (harness/translate_c07.py)",
-    "modelled: assertion.py _filter_values, _match, filter_on_attributes, filter_attribute_value_assertions, post_entity_categories, Policy.compile/get/get_*/filter/restrict, Assertion.apply_policy; server.py setup_assertion, _authn_response (non-pefim), create_attribute_response; mdstore attribute_requirement/entity_categories as the (required, optional, categories) view generated by the harness and written into real metadata XML",
+    "modelled: assertion.py _filter_values, _match, filter_on_attributes, filter_attribute_value_assertions, post_entity_categories, Policy.compile/get/get_*/filter/restrict(best_effort), Assertion.apply_policy(best_effort); server.py setup_assertion (as repaired by proposed_fix/C07-1.diff), _authn_response (non-pefim), create_attribute_response; mdstore attribute_requirement/entity_categories as the (required, optional, categories) view generated by the harness and written into real metadata XML",
     "re.match and get_local_name are per-case truth tables computed by the harness from Python's re and from the raw attribute-map tables (not through get_local_name); the theorems quantify over every such function",
     "the documented entity-category table (Proofs/Policy_lemmas.v documented_ec, harness DOC_EC) is a hand-written statement of what each category entitles to",
 ]
@@ -44,7 +46,9 @@ ASSUMPTIONS = [
 RULE = ("worlds = generated (policy, SP metadata set) pairs, each with ONE Server and ONE Policy used for a whole sequence of requests for "
         "different SPs; identities with case variants, multi-valued, non-ASCII, empty lists; policy shapes default/per-SP, "
         "attribute_restrictions absent/None/{}/name-only/regex lists, entity_categories incl. ONLY_REQUIRED (edugain CoCo), "
-        "fail_on_missing_requested on/off; SP declarations required/optional with and without value constraints, unsatisfiable ones. "
+        "fail_on_missing_requested on/off; SP declarations required/optional with and without value constraints, unsatisfiable ones; "
+        "fixed worlds: every documented category row, every pattern x value of the regex pool, 8 policy shapes x 7 SPs x 5 identities on the "
+        "missing-requirement path (create_authn_response, setup_assertion with both best_effort values, create_attribute_response). "
         "Non-trivial = the filter removed something, raised, or hit the MissingValue path; distinct by content.")
 
 URI = "urn:oasis:names:tc:SAML:2.0:attrname-format:uri"
@@ -1045,7 +1049,7 @@ def witness_replay(ctx):
     w = World(ctx.rng, 0, [], fixed=(sps, pol, None))
     ident = {"givenName": ["Anna"], "secret": ["s3cret"]}
     impl, rel = outcome_val(call(do_authn, w.server, sps[0]["eid"], ident))
-    ctx.extra["refutation_witness_on_implementation"] = {"policy": pol, "sp_requires": "sn", "identity": ident, "outcome": impl}
+    ctx.extra["refutation_witness_on_implementation"] = {"policy": pol, "sp_requires": "sn", "sp_wishes": "givenName", "identity": ident, "outcome": impl}
     judge(ctx, "authn-response", w, pol, sps[0]["eid"], ident, rel, {"unit": "e2e_authn", "policy": pol, "sps": sps, "sp": sps[0]["eid"], "identity": ident})
     ctx.evaluations += 1
     return impl
@@ -1077,6 +1081,21 @@ def replay(ctx, payload):
             got = outcome_val(call(do_authn, w.server, inp["sp"], inp["identity"]))[0]
         elif unit == "e2e_attribute":
             got = outcome_val(call(do_attr, w.server, inp["sp"], inp["identity"]))[0]
+        elif unit == "setup_assertion":
+            def setup():
+                r = w.server.setup_assertion({"class_ref": PASSWORD, "authn_auth": "x"}, inp["sp"], "req-1", inp["sp"] + "/acs",
+                                             saml.NameID(text="s", format=saml.NAMEID_FORMAT_PERSISTENT),
+                                             w.server.config.getattr("policy", "idp"), w.server._issuer(), None,
+                                             copy.deepcopy(inp["identity"]), bool(inp.get("best_effort")), False)
+                if isinstance(r, saml.Assertion):
+                    out = {}
+                    for st in r.attribute_statement:
+                        for at in st.attribute:
+                            vals = [(v.extension_elements[0].text if v.extension_elements else v.text) or "" for v in at.attribute_value]
+                            out.setdefault(at.friendly_name if at.friendly_name is not None else at.name, []).extend(vals)
+                    return samlp.STATUS_SUCCESS, out
+                return r.status.status_code.value, None
+            got = outcome_val(call(setup))[0]
         else:
             got = call(w.policy.restrict, copy.deepcopy(inp["identity"]), inp["sp"], w.server.metadata)
         print("implementation:", got)
